@@ -707,7 +707,12 @@ func (e *env) progText(p *program, tr *evmx.Tracer) (string, uint64) {
 					if len(n.OpPcs) > 0 {
 						words = (uint64(len(assembleX(n.Body, p.create))) + 31) / 32
 					}
-					an = 3*3 + 3 + 3*words + memCost(words) + 3*2 + 3 + 32000 + 2*words // EIP-3860: 2 gas per word of init code
+					mem := uint64(0)
+					if words > memWords {
+						mem = memCost(words) - memCost(memWords) // round 4: the frame's memory may already be expanded (earlier calldata / init code)
+						memWords = words
+					}
+					an = 3*3 + 3 + 3*words + mem + 3*2 + 3 + 32000 + 2*words // EIP-3860: 2 gas per word of init code
 					if hasFrame && ok && !bad[key{frame, uint64(n.PcCall)}] {
 						callc += cost[key{frame, uint64(n.PcCall)}]
 						if callc != an {
